@@ -5,6 +5,7 @@ package main
 // used by C10 / C14.
 
 import (
+	"fmt"
 	"math"
 	"math/rand"
 
@@ -319,6 +320,18 @@ func init() {
 				}
 			}
 			g.mesh3("ProfileMesh", "bitmap-outline", -99, func() *model3d.Mesh { return model3d.ProfileMesh(bmp.Mesh(), z0, z1) })
+		}
+		// marching cubes with interior points on boxes: the lattice is anchored one spacing below the bounds, so a whole
+		// lattice layer lies on every face of the box
+		for i := 0; i < 6*scale; i++ {
+			lo := model3d.XYZ(float64(rng.Intn(3)), float64(rng.Intn(3)), float64(rng.Intn(3)))
+			hi := lo.Add(model3d.XYZ(float64(1+rng.Intn(3)), float64(1+rng.Intn(3)), float64(1+rng.Intn(3))))
+			delta := []float64{1, 0.5}[rng.Intn(2)]
+			iters := []int{0, 2, 5}[i%3]
+			g.mesh3("MarchingCubesInterior", fmt.Sprintf("box iters=%d", iters), 2, func() *model3d.Mesh {
+				m, _ := model3d.MarchingCubesInterior(model3d.NewRect(lo, hi), delta, iters)
+				return m
+			})
 		}
 		// box sets: histories of Add / Remove / AddRectSet / RemoveRectSet
 		for i := 0; i < 12*scale; i++ {
